@@ -970,3 +970,429 @@ Proof.
     pose proof (encode_root_size r (length keys) H1 H2 H3 Hn). lia.
   - change (size_slim empty_slim) with 0%N. lia.
 Qed.
+
+(* ====================================================================== *)
+(* Part 3: prepending a common prefix changes only the root's step.        *)
+(* ====================================================================== *)
+(* ---------- filter-mode process_subset in named components ---------- *)
+Definition cdiffs (es : list ent) : list nat := adj_lcps (map e_nibs es).
+Definition cws (es : list ent) : nat := list_min (hd 0 (cdiffs es)) (cdiffs es).
+Definition cbig (isbig : bool) (es : list ent) : bool :=
+  isbig && (big_threshold <? 1 + length (filter (fun x => x <? even_down (cws es) + 2) (cdiffs es))).
+Definition cw (isbig : bool) (es : list ent) : nat := if cbig isbig es then even_down (cws es) else cws es.
+Definition clabels (isbig : bool) (es : list ent) : list nat :=
+  dedup_adj (map (ent_label (cbig isbig es) (cw isbig es)) (filter e_keep es)).
+
+Lemma process_subset_nf o isbig es f :
+  o_inner o = false -> 2 <= length es ->
+  process_subset o isbig {| s_ents := es; s_from := f |} =
+  if cw isbig es <? f then Err (EPanic 2)
+  else if (max_step <? N.of_nat (cw isbig es - f))%N then Err EStepTooLong
+  else Ok (DInner (cbig isbig es) (cw isbig es - f) None (clabels isbig es)
+                  (split_kids (cbig isbig es) (cw isbig es) (clabels isbig es) es), cbig isbig es).
+Proof.
+  intros Hi Hl. unfold process_subset. cbn [s_ents s_from].
+  destruct es as [|e0 [|e1 r]]; cbn [length] in Hl; try lia.
+  rewrite Hi. cbn [negb andb]. cbv zeta.
+  fold (cdiffs (e0 :: e1 :: r)). fold (cws (e0 :: e1 :: r)). fold (cbig isbig (e0 :: e1 :: r)).
+  fold (cw isbig (e0 :: e1 :: r)). fold (clabels isbig (e0 :: e1 :: r)). reflexivity.
+Qed.
+
+(* ---------- prepending a common prefix ---------- *)
+Lemma nibs_app a b : nibs (a ++ b) = nibs a ++ nibs b.
+Proof. unfold nibs. apply flat_map_app. Qed.
+
+Lemma lcp_app p a b : lcp (p ++ a) (p ++ b) = length p + lcp a b.
+Proof. induction p as [|x p IH]; [reflexivity|]. cbn [app lcp length]. rewrite Nat.eqb_refl, IH. reflexivity. Qed.
+
+Lemma adj_lcps_shift p : forall l, adj_lcps (map (app p) l) = map (Nat.add (length p)) (adj_lcps l).
+Proof.
+  induction l as [|a l IH]; [reflexivity|]. destruct l as [|b l']; [reflexivity|].
+  change (map (app p) (a :: b :: l')) with ((p ++ a) :: (p ++ b) :: map (app p) l').
+  rewrite !adj_lcps_cons2. cbn [map]. rewrite lcp_app. f_equal. exact IH.
+Qed.
+
+Lemma list_min_shift k : forall l d0, list_min (k + d0) (map (Nat.add k) l) = k + list_min d0 l.
+Proof.
+  induction l as [|x l IH]; intros d0; [reflexivity|]. cbn [map list_min].
+  rewrite <- IH. f_equal. lia.
+Qed.
+
+Lemma even_down_shift k x : Nat.even k = true -> even_down (k + x) = k + even_down x.
+Proof.
+  intros H. apply Nat.even_spec in H. destruct H as [m ->]. unfold even_down.
+  replace ((2 * m + x) mod 2) with (x mod 2); [lia|].
+  rewrite Nat.add_comm, Nat.mul_comm. rewrite Nat.mod_add by lia. reflexivity.
+Qed.
+
+Lemma filter_lt_shift k b : forall l,
+  length (filter (fun x => x <? k + b) (map (Nat.add k) l)) = length (filter (fun x => x <? b) l).
+Proof.
+  induction l as [|x l IH]; [reflexivity|]. cbn [map filter].
+  replace (k + x <? k + b) with (x <? b).
+  - destruct (x <? b); cbn [length]; rewrite IH; reflexivity.
+  - destruct (Nat.ltb_spec x b), (Nat.ltb_spec (k + x) (k + b)); try reflexivity; lia.
+Qed.
+
+Lemma skipn_app_plus {A} (p l : list A) w : skipn (length p + w) (p ++ l) = skipn w l.
+Proof. induction p as [|x p IH]; [reflexivity|]. cbn [length Nat.add app skipn]. exact IH. Qed.
+
+Lemma label_at_shift big p l w : label_at big (p ++ l) (length p + w) = label_at big l w.
+Proof. unfold label_at. rewrite skipn_app_plus. reflexivity. Qed.
+
+Section Shift.
+Variable P : key.
+Definition pnib : list nat := nibs P.
+Definition pd : nat := length pnib.
+
+Definition shift_ent (e : ent) : ent :=
+  {| e_key := P ++ e_key e; e_nibs := pnib ++ e_nibs e; e_keep := e_keep e; e_idx := e_idx e |}.
+Definition shift_sub (s : subset) : subset :=
+  {| s_ents := map shift_ent (s_ents s); s_from := pd + s_from s |}.
+Definition shift_desc (dd : desc) : desc :=
+  match dd with
+  | DLeaf tail eidx => DLeaf tail eidx
+  | DInner big step pfx labels kids => DInner big step pfx labels (map shift_sub kids)
+  end.
+
+Lemma pd_even : Nat.even pd = true.
+Proof. unfold pd, pnib. rewrite nibs_length. apply Nat.even_spec. exists (length P). reflexivity. Qed.
+
+Lemma pd_val : pd = 2 * length P.
+Proof. unfold pd, pnib. apply nibs_length. Qed.
+
+Lemma map_nibs_shift es : map e_nibs (map shift_ent es) = map (app pnib) (map e_nibs es).
+Proof. rewrite !map_map. reflexivity. Qed.
+
+Lemma cdiffs_shift es : cdiffs (map shift_ent es) = map (Nat.add pd) (cdiffs es).
+Proof. unfold cdiffs. rewrite map_nibs_shift. apply adj_lcps_shift. Qed.
+
+Lemma cws_shift es : 2 <= length es -> cws (map shift_ent es) = pd + cws es.
+Proof.
+  intros Hl. unfold cws. rewrite cdiffs_shift.
+  assert (cdiffs es <> []) as Hne.
+  { unfold cdiffs. destruct es as [|a [|b r]]; cbn [length] in Hl; try lia. cbn [map]. apply adj_lcps_nonempty. }
+  destruct (cdiffs es) as [|x l]; [congruence|]. cbn [map hd]. apply (list_min_shift pd (x :: l) x).
+Qed.
+
+Lemma cbig_shift isbig es : 2 <= length es -> cbig isbig (map shift_ent es) = cbig isbig es.
+Proof.
+  intros Hl. unfold cbig. rewrite cws_shift by exact Hl. rewrite cdiffs_shift.
+  rewrite even_down_shift by apply pd_even. rewrite <- Nat.add_assoc. rewrite filter_lt_shift. reflexivity.
+Qed.
+
+Lemma cw_shift isbig es : 2 <= length es -> cw isbig (map shift_ent es) = pd + cw isbig es.
+Proof.
+  intros Hl. unfold cw. rewrite cbig_shift, cws_shift by exact Hl.
+  destruct (cbig isbig es); [apply even_down_shift; apply pd_even|reflexivity].
+Qed.
+
+Lemma ent_label_shift big w e : ent_label big (pd + w) (shift_ent e) = ent_label big w e.
+Proof. unfold ent_label, shift_ent. cbn [e_nibs]. apply label_at_shift. Qed.
+
+Lemma filter_keep_shift es : filter e_keep (map shift_ent es) = map shift_ent (filter e_keep es).
+Proof.
+  induction es as [|e es IH]; [reflexivity|]. cbn [map filter]. cbn [shift_ent e_keep].
+  destruct (e_keep e); cbn [map]; rewrite IH; reflexivity.
+Qed.
+
+Lemma clabels_shift isbig es : 2 <= length es -> clabels isbig (map shift_ent es) = clabels isbig es.
+Proof.
+  intros Hl. unfold clabels. rewrite cbig_shift, cw_shift by exact Hl. rewrite filter_keep_shift, map_map.
+  f_equal. apply map_ext. intros e. apply ent_label_shift.
+Qed.
+
+Lemma drop_while_map {A B} (f : B -> bool) (g : A -> B) l : drop_while f (map g l) = map g (drop_while (fun x => f (g x)) l).
+Proof. induction l as [|x l IH]; [reflexivity|]. cbn [map drop_while]. destruct (f (g x)); [exact IH|reflexivity]. Qed.
+
+Lemma take_while_map {A B} (f : B -> bool) (g : A -> B) l : take_while f (map g l) = map g (take_while (fun x => f (g x)) l).
+Proof. induction l as [|x l IH]; [reflexivity|]. cbn [map take_while]. destruct (f (g x)); [cbn [map]; rewrite IH|]; reflexivity. Qed.
+
+Lemma drop_while_ext {A} (f g : A -> bool) l : (forall x, f x = g x) -> drop_while f l = drop_while g l.
+Proof. intros H. induction l as [|x l IH]; [reflexivity|]. cbn [drop_while]. rewrite H, IH. reflexivity. Qed.
+
+Lemma take_while_ext {A} (f g : A -> bool) l : (forall x, f x = g x) -> take_while f l = take_while g l.
+Proof. intros H. induction l as [|x l IH]; [reflexivity|]. cbn [take_while]. rewrite H, IH. reflexivity. Qed.
+
+Lemma split_kids_shift big w : forall labels es,
+  split_kids big (pd + w) labels (map shift_ent es) = map shift_sub (split_kids big w labels es).
+Proof.
+  induction labels as [|lb r IH]; intros es; [reflexivity|].
+  cbn [split_kids]. rewrite drop_while_map.
+  rewrite (drop_while_ext _ (fun e => negb (Nat.eqb (ent_label big w e) lb))) by (intros x; rewrite ent_label_shift; reflexivity).
+  destruct (drop_while (fun e => negb (Nat.eqb (ent_label big w e) lb)) es) as [|e rest].
+  - cbn [map]. f_equal.
+    + unfold shift_sub. cbn [s_ents s_from map]. f_equal. lia.
+    + apply (IH []).
+  - cbn [map]. f_equal.
+    + unfold shift_sub. cbn [s_ents s_from map]. f_equal; [|lia]. f_equal.
+      rewrite take_while_map. f_equal. apply take_while_ext. intros x. rewrite ent_label_shift. reflexivity.
+    + rewrite drop_while_map.
+      rewrite (drop_while_ext _ (fun e0 => Nat.eqb (ent_label big w e0) lb)) by (intros x; rewrite ent_label_shift; reflexivity).
+      apply IH.
+Qed.
+
+Definition rmap (r : res (desc * bool)) : res (desc * bool) :=
+  match r with Ok (dd, b) => Ok (shift_desc dd, b) | Err e => Err e end.
+
+Lemma ltb_add_cancel k a b : (k + a <? k + b) = (a <? b).
+Proof. destruct (Nat.ltb_spec a b), (Nat.ltb_spec (k + a) (k + b)); try reflexivity; lia. Qed.
+
+Lemma process_subset_shift o isbig s :
+  o_inner o = false -> o_leaf o = false ->
+  process_subset o isbig (shift_sub s) = rmap (process_subset o isbig s).
+Proof.
+  intros Hi Hlf. destruct s as [es f].
+  destruct es as [|e0 [|e1 r]].
+  - reflexivity.
+  - unfold process_subset, shift_sub. cbn [s_ents s_from map rmap shift_desc].
+    unfold leaf_tail. rewrite Hlf. reflexivity.
+  - unfold shift_sub. cbn [s_ents s_from].
+    set (es := e0 :: e1 :: r).
+    assert (2 <= length es) as Hl by (unfold es; cbn; lia).
+    rewrite (process_subset_nf o isbig es f Hi Hl).
+    rewrite (process_subset_nf o isbig (map shift_ent es) (pd + f) Hi) by (rewrite map_length; exact Hl).
+    rewrite cw_shift, cbig_shift, clabels_shift by exact Hl.
+    rewrite ltb_add_cancel.
+    replace (pd + cw isbig es - (pd + f)) with (cw isbig es - f) by lia.
+    destruct (cw isbig es <? f); [reflexivity|].
+    destruct (max_step <? N.of_nat (cw isbig es - f))%N; [reflexivity|].
+    cbn [rmap shift_desc]. rewrite split_kids_shift. reflexivity.
+Qed.
+
+Lemma process_level_shift o : forall ss isbig,
+  o_inner o = false -> o_leaf o = false ->
+  process_level o isbig (map shift_sub ss) =
+  match process_level o isbig ss with Ok (ds, b) => Ok (map shift_desc ds, b) | Err e => Err e end.
+Proof.
+  induction ss as [|s r IH]; intros isbig Hi Hlf; [reflexivity|].
+  cbn [map process_level]. rewrite process_subset_shift by assumption.
+  destruct (process_subset o isbig s) as [[dd b]|e]; cbn [rmap bind]; [|reflexivity].
+  rewrite IH by assumption. destruct (process_level o b r) as [[ds b']|e]; cbn [bind]; reflexivity.
+Qed.
+
+Lemma assemble_shift : forall ds id cid lord forest,
+  assemble (map shift_desc ds) id cid lord forest = assemble ds id cid lord forest.
+Proof.
+  induction ds as [|dd ds IH]; intros id cid lord forest; [reflexivity|].
+  destruct dd as [tail eidx|big step pfx labels kids]; cbn [map shift_desc assemble].
+  - rewrite IH. reflexivity.
+  - rewrite map_length, IH. reflexivity.
+Qed.
+
+Lemma flat_map_leaf_idx_shift ds : flat_map leaf_idx_of (map shift_desc ds) = flat_map leaf_idx_of ds.
+Proof. induction ds as [|dd ds IH]; [reflexivity|]. cbn [map flat_map]. rewrite IH. destruct dd; reflexivity. Qed.
+
+Lemma flat_map_kids_shift ds : flat_map kids_of (map shift_desc ds) = map shift_sub (flat_map kids_of ds).
+Proof.
+  induction ds as [|dd ds IH]; [reflexivity|]. cbn [map flat_map]. rewrite IH, map_app. destruct dd; reflexivity.
+Qed.
+
+Lemma build_levels_unfold f o isbig base lbase ss : ss <> [] ->
+  build_levels (S f) o isbig base lbase ss =
+  (do (ds, b) <- process_level o isbig ss;
+   let lidx := flat_map leaf_idx_of ds in
+   let cbase := base + length ss in
+   do (forest, lidx') <- build_levels f o b cbase (lbase + length lidx) (flat_map kids_of ds);
+   Ok (assemble ds base cbase lbase forest, lidx ++ lidx')).
+Proof. destruct ss; [congruence|reflexivity]. Qed.
+
+Lemma build_levels_shift o : forall f isbig base lbase ss,
+  o_inner o = false -> o_leaf o = false ->
+  build_levels f o isbig base lbase (map shift_sub ss) = build_levels f o isbig base lbase ss.
+Proof.
+  induction f as [|f IH]; intros isbig base lbase ss Hi Hlf.
+  - destruct ss; reflexivity.
+  - destruct ss as [|s0 r0]; [reflexivity|].
+    rewrite (build_levels_unfold f o isbig base lbase (s0 :: r0)) by discriminate.
+    rewrite (build_levels_unfold f o isbig base lbase (map shift_sub (s0 :: r0))) by discriminate.
+    rewrite process_level_shift by assumption.
+    destruct (process_level o isbig (s0 :: r0)) as [[ds b]|e]; cbn [bind]; [|reflexivity].
+    cbv zeta. rewrite flat_map_leaf_idx_shift, flat_map_kids_shift, map_length, IH by assumption.
+    destruct (build_levels f o b _ _ (flat_map kids_of ds)) as [[forest lidx']|e]; cbn [bind]; [|reflexivity].
+    rewrite assemble_shift. reflexivity.
+Qed.
+
+End Shift.
+
+(* ---------- fuel ---------- *)
+Lemma build_levels_fuel o : forall f isbig base lbase ss x k,
+  build_levels f o isbig base lbase ss = Ok x -> build_levels (f + k) o isbig base lbase ss = Ok x.
+Proof.
+  induction f as [|f IH]; intros isbig base lbase ss x k H.
+  - destruct ss; [|discriminate]. cbn in H. inversion H; subst. cbn [Nat.add]. destruct k; reflexivity.
+  - destruct ss as [|s0 r0]; [exact H|].
+    cbn [Nat.add]. rewrite build_levels_unfold in * by discriminate.
+    destruct (process_level o isbig (s0 :: r0)) as [[ds b]|e]; cbn [bind] in H |- *; [|discriminate].
+    cbv zeta in H |- *.
+    destruct (build_levels f o b _ _ (flat_map kids_of ds)) as [[forest lidx']|e] eqn:E; cbn [bind] in H; [|discriminate].
+    rewrite (IH _ _ _ _ _ k E). cbn [bind]. exact H.
+Qed.
+
+Lemma build_levels_agree o f f' isbig base lbase ss x y :
+  build_levels f o isbig base lbase ss = Ok x -> build_levels f' o isbig base lbase ss = Ok y -> x = y.
+Proof.
+  intros H1 H2. apply (build_levels_fuel o _ _ _ _ _ _ f') in H1. apply (build_levels_fuel o _ _ _ _ _ _ f) in H2.
+  rewrite Nat.add_comm in H2. rewrite H1 in H2. inversion H2. reflexivity.
+Qed.
+
+(* ---------- the prefixed build ---------- *)
+Definition bump_step (k : nat) (t : tree) : tree :=
+  match t with
+  | Inner id big step pfx fc ch => Inner id big (k + step) pfx fc ch
+  | Leaf _ _ _ _ => t
+  end.
+
+Lemma mk_ents_shift P : forall keys b keep,
+  mk_ents b (map (app P) keys) keep = map (shift_ent P) (mk_ents b keys keep).
+Proof.
+  induction keys as [|k r IH]; intros b keep; [reflexivity|].
+  cbn [map mk_ents]. rewrite IH. f_equal. unfold shift_ent, pnib. cbn [e_key e_nibs e_keep e_idx].
+  rewrite nibs_app. reflexivity.
+Qed.
+
+Lemma root_level o P f f' ents x x' :
+  o_inner o = false -> o_leaf o = false -> ents <> [] ->
+  build_levels (S f) o true 0 0 [{| s_ents := ents; s_from := 0 |}] = Ok x ->
+  build_levels (S f') o true 0 0 [{| s_ents := map (shift_ent P) ents; s_from := 0 |}] = Ok x' ->
+  fst x' = map (bump_step (2 * length P)) (fst x) /\ snd x' = snd x /\ length (fst x) = 1.
+Proof.
+  intros Hi Hlf Hne HT HT'.
+  rewrite build_levels_unfold in HT by discriminate. rewrite build_levels_unfold in HT' by discriminate.
+  cbn [process_level] in HT, HT'.
+  destruct ents as [|e0 [|e1 er]]; [congruence| |].
+  - (* a single key: both are a leaf *)
+    unfold process_subset in HT, HT'. cbn [s_ents s_from map] in HT, HT'.
+    unfold leaf_tail in HT, HT'. rewrite Hlf in HT, HT'. cbn [bind process_level] in HT, HT'.
+    cbv zeta in HT, HT'. cbn [flat_map kids_of leaf_idx_of app length] in HT, HT'.
+    destruct f, f'; cbn [build_levels bind assemble] in HT, HT'; inversion HT; inversion HT'; subst; cbn; auto.
+  - set (es := e0 :: e1 :: er) in *.
+    assert (2 <= length es) as Hl by (unfold es; cbn; lia).
+    rewrite (process_subset_nf o true es 0 Hi Hl) in HT.
+    rewrite (process_subset_nf o true (map (shift_ent P) es) 0 Hi) in HT' by (rewrite map_length; exact Hl).
+    rewrite cw_shift, cbig_shift, clabels_shift in HT' by exact Hl.
+    change (cw true es <? 0) with false in HT. change (pd P + cw true es <? 0) with false in HT'. cbv iota in HT, HT'.
+    destruct (max_step <? N.of_nat (cw true es - 0))%N; [discriminate|].
+    destruct (max_step <? N.of_nat (pd P + cw true es - 0))%N; [discriminate|].
+    cbn [bind process_level] in HT, HT'. cbv zeta in HT, HT'.
+    cbn [flat_map kids_of leaf_idx_of app length] in HT, HT'. rewrite !app_nil_r in HT, HT'.
+    rewrite split_kids_shift in HT'. rewrite build_levels_shift in HT' by assumption.
+    destruct (build_levels f o (cbig true es) _ _ _) as [[forest lidx]|] eqn:E1; cbn [bind] in HT; [|discriminate].
+    destruct (build_levels f' o (cbig true es) _ _ _) as [[forest' lidx']|] eqn:E2; cbn [bind] in HT'; [|discriminate].
+    pose proof (build_levels_agree _ _ _ _ _ _ _ _ _ E1 E2) as Heq. inversion Heq; subst forest' lidx'.
+    cbn [assemble] in HT, HT'. rewrite map_length in HT'.
+    inversion HT; inversion HT'; subst. cbn [fst snd map bump_step length].
+    rewrite pd_val. rewrite !Nat.sub_0_r. auto.
+Qed.
+
+Theorem prefix_same_tree o P keys T T' :
+  o_inner o = false -> o_leaf o = false ->
+  build o keys None = Ok T -> build o (map (app P) keys) None = Ok T' ->
+  t_root T' = option_map (bump_step (2 * length P)) (t_root T) /\
+  t_innerpfx T' = t_innerpfx T /\ t_leafpfx T' = t_leafpfx T /\ t_leaves T' = t_leaves T.
+Proof.
+  intros Hi Hlf HT HT'.
+  destruct keys as [|k0 kr].
+  { cbn in HT, HT'. inversion HT; inversion HT'; subst. cbn. auto. }
+  rewrite build_unfold in HT by discriminate. rewrite build_unfold in HT' by discriminate.
+  destruct (check_order (k0 :: kr)); [discriminate|].
+  destruct (check_order (map (app P) (k0 :: kr))); [discriminate|].
+  cbv zeta in HT, HT'. rewrite map_length in HT'.
+  rewrite mk_ents_shift in HT'.
+  remember (max_nibs (k0 :: kr) + 3) as f eqn:Ef. remember (max_nibs (map (app P) (k0 :: kr)) + 3) as f' eqn:Ef'.
+  destruct f as [|f]; [lia|]. destruct f' as [|f']; [lia|].
+  destruct (build_levels (S f) o true 0 0 _) as [x|] eqn:E1; cbn [bind] in HT; [|discriminate].
+  destruct (build_levels (S f') o true 0 0 _) as [x'|] eqn:E2; cbn [bind] in HT'; [|discriminate].
+  destruct (root_level o P f f' (mk_ents 0 (k0 :: kr) (to_keep o (length (k0 :: kr)) None)) x x' Hi Hlf) as (H1 & H2 & H3);
+    [cbn [mk_ents]; discriminate|exact E1|exact E2|].
+  destruct x as [forest lidx], x' as [forest' lidx']. cbn [fst snd] in *. subst forest' lidx'.
+  destruct forest as [|r [|r2 rest]]; cbn [length] in H3; try lia.
+  cbn [map] in HT'. inversion HT; inversion HT'; subst. cbn. auto.
+Qed.
+
+(* ====================================================================== *)
+(* Part 4: the size depends on the root's step only through the step entry. *)
+(* ====================================================================== *)
+(* ---------- the message as a function of the node-type bits and the inner nodes ---------- *)
+Definition enc (nb : list bool) (ins : list inode) : slim :=
+  let bigcnt := big_count ins in
+  let tbls := sorted_tbls (cands (skipn bigcnt ins)) in
+  let ss := find_short_size tbls in
+  let mu := most_used tbls ss in
+  let stepped := filter has_step ins in
+  mkSlim (Z.of_nat bigcnt) (Z.of_nat ss)
+         (Some (mk_bm false nb))
+         (Some (mk_bm true (flat_map (node_bits ss mu) ins)))
+         (Some (mk_bm false (map (fun i => match node_short mu i with Some _ => true | None => false end) ins)))
+         (short_table tbls ss)
+         (Some (mkVlen 0 (Z.of_nat (length stepped)) None 2
+                       (flat_map (fun i => enc_step (in_step i)) stepped)
+                       (Some (mk_bm true (map has_step ins))) []))
+         None None [].
+
+Lemma encode_root_enc r : encode_root r = enc (map is_inner (bfs r)) (inners r).
+Proof. reflexivity. Qed.
+
+Lemma bfs_cons r : bfs r = r :: levels (height r) (flat_map children [r]).
+Proof. reflexivity. Qed.
+
+Lemma bfs_bump k r : bfs (bump_step k r) = bump_step k r :: tl (bfs r).
+Proof. destruct r; reflexivity. Qed.
+
+Lemma bfs_self r : bfs r = r :: tl (bfs r).
+Proof. reflexivity. Qed.
+
+(* the step of an inner node matters only through "is it zero" and the two step bytes *)
+Lemma enc_size_step nb b s s' l tl :
+  (s =? 0) = (s' =? 0) ->
+  size_slim (enc nb ({| in_big := b; in_step := s'; in_labels := l |} :: tl)) =
+  size_slim (enc nb ({| in_big := b; in_step := s; in_labels := l |} :: tl)).
+Proof.
+  intros Hs. unfold enc. cbv zeta.
+  set (i := {| in_big := b; in_step := s; in_labels := l |}).
+  set (i' := {| in_big := b; in_step := s'; in_labels := l |}).
+  assert (big_count (i' :: tl) = big_count (i :: tl)) as -> by (unfold big_count, i, i'; cbn [filter in_big]; destruct b; reflexivity).
+  assert (forall n, cands (skipn n (i' :: tl)) = cands (skipn n (i :: tl))) as Hc by (intros [|n]; reflexivity).
+  rewrite Hc.
+  set (tbls := sorted_tbls (cands (skipn (big_count (i :: tl)) (i :: tl)))).
+  set (ss := find_short_size tbls). set (mu := most_used tbls ss).
+  assert (flat_map (node_bits ss mu) (i' :: tl) = flat_map (node_bits ss mu) (i :: tl)) as -> by reflexivity.
+  assert (map (fun i0 => match node_short mu i0 with Some _ => true | None => false end) (i' :: tl) =
+          map (fun i0 => match node_short mu i0 with Some _ => true | None => false end) (i :: tl)) as -> by reflexivity.
+  assert (map has_step (i' :: tl) = map has_step (i :: tl)) as ->.
+  { cbn [map]. f_equal. unfold has_step, i, i'. cbn [in_step]. rewrite Hs. reflexivity. }
+  set (F := filter has_step tl).
+  assert (filter has_step (i :: tl) = if negb (s =? 0) then i :: F else F) as -> by reflexivity.
+  assert (filter has_step (i' :: tl) = if negb (s =? 0) then i' :: F else F) as ->.
+  { cbn [filter]. unfold has_step at 1. unfold i' at 1. cbn [in_step]. rewrite <- Hs. reflexivity. }
+  destruct (negb (s =? 0)); [|reflexivity].
+  unfold size_slim. cbn [s_bigcnt s_shortsize s_nodetype s_inners s_shortbm s_shorttable s_innerpref s_leafpref s_leaves s_unk].
+  unfold sz_msg at 4 8. unfold size_vlen. cbn [vl_n vl_eltcnt vl_position vl_fixed vl_bytes vl_presence vl_unk].
+  subst i i'. cbn [length flat_map enc_step app in_step]. unfold sz_bytes, blen. cbn [length]. reflexivity.
+Qed.
+
+Definition root_has_step (t : tree) : bool :=
+  match t with Inner _ _ step _ _ _ => negb (step =? 0) | Leaf _ _ _ _ => true end.
+
+Lemma encode_root_bump k r :
+  root_has_step r = true -> size_slim (encode_root (bump_step k r)) = size_slim (encode_root r).
+Proof.
+  intros H. rewrite !encode_root_enc. unfold inners. rewrite bfs_bump. rewrite (bfs_self r) at 3 4.
+  destruct r as [id ord tail eidx|id big step pfx fc ch]; [reflexivity|].
+  cbn [bump_step map is_inner flat_map inode_of app].
+  apply enc_size_step. cbn [root_has_step] in H.
+  destruct (Nat.eqb_spec step 0); [discriminate|]. destruct (Nat.eqb_spec (k + step) 0); [lia|reflexivity].
+Qed.
+
+Theorem prefix_size_equal o P keys T T' :
+  o_inner o = false -> o_leaf o = false ->
+  build o keys None = Ok T -> build o (map (app P) keys) None = Ok T' ->
+  (forall r, t_root T = Some r -> root_has_step r = true) ->
+  marshal_size T' = marshal_size T.
+Proof.
+  intros Hi Hlf HT HT' Hstep.
+  destruct (prefix_same_tree o P keys T T' Hi Hlf HT HT') as (Hr & _).
+  unfold marshal_size, encode_trie. rewrite Hr.
+  destruct (t_root T) as [r|]; [|reflexivity]. cbn [option_map].
+  rewrite encode_root_bump; [reflexivity|]. apply Hstep. reflexivity.
+Qed.
